@@ -348,6 +348,7 @@ func runLaws(c *Case) (o outcome) {
 }
 
 func runCase(c *Case) outcome {
+	compkit.Journal(c)
 	if c.Mode == "laws" {
 		return runLaws(c)
 	}
